@@ -117,8 +117,8 @@ class World(object):
             self.probes["builder_refused"] += 1
             return
         bpm = op.get("bpm")
-        if bpm is not None and notes is not None:
-            mb.obj.bar[-1][2].bpm = bpm
+        if bpm is not None and mb.obj.bar[-1][2] is not None:
+            mb.obj.bar[-1][2].bpm = bpm  # also on an empty container: a tempo mark on a silent beat
         else:
             bpm = None
         mb.entries.append({"len": ln, "sym": op["v"], "notes": model_notes, "bpm": bpm})
